@@ -105,12 +105,14 @@ BOUNDS = {
         "tree": [{"alphabet": "full", "W": [1, 2, 3, 4], "depth": 3}, {"alphabet": "mini", "W": [5], "depth": 3}],
         "bind": {"sigs": 8, "flags": [list(N_), list(D_), [True, 1, False]]},
         "flags": {"cfgs": [0, 3]},
+        "kwonly": {"sigs": 3, "flags": [list(N_), list(D_)]},
         "block_len": 3,
     },
     "thorough": {
         "tree": [{"alphabet": "full", "W": [1, 2, 3, 4, 5], "depth": 4}, {"alphabet": "core", "W": [6], "depth": 4}],
         "bind": {"sigs": 10, "flags": [list(N_), list(B_), list(F_), list(D_), [True, 2, True]]},
         "flags": {"cfgs": [0, 1, 2, 3]},
+        "kwonly": {"sigs": 5, "flags": [list(N_), list(B_), list(F_), list(D_)]},
         "block_len": 3,
     },
 }
@@ -263,6 +265,113 @@ def iter_calldef(cfgs, seed):
 
 
 # ---------------------------------------------------------------------------
+# family "kwonly": keyword-only parameters after *args, with and without defaults in every order, in every place a
+# signature is written: <%def name>, <%call/%ns:def args> (caller.body(**args)), <%page args>, <%block args>
+
+KW_SIGS = [
+    # (signature, parameters in order, positional prefixes, keyword names -> value given)
+    ("*a, b='B', c", ["a", "b", "c"], ["", "11", "11, 12"], [[("b", 2), ("c", 3)]]),
+    ("x, *a, j=4, k", ["x", "a", "j", "k"], ["", "11", "11, 12", "x=9"], [[("j", 5), ("k", 6)]]),
+    ("*a, j=4, k, m=6", ["a", "j", "k", "m"], ["", "11", "11, 12"], [[("j", 5), ("k", 6), ("m", 7)]]),
+    ("x, *a, k=1, r, **kw", ["x", "a", "k", "r", "kw"], ["", "11", "11, 12"], [[("k", 5), ("r", 6), ("z", 8)]]),
+    ("*a, p, q='Q', r, s='S'", ["a", "p", "q", "r", "s"], ["", "11"], [[("p", 2), ("q", 3), ("r", 4), ("s", 5)]]),
+]
+
+
+def kw_arglists(sigrec):
+    """every positional prefix x every subset of the keywords (each keyword given / omitted), as (source, keywords)"""
+    sig, params, prefixes, kws = sigrec
+    out = []
+    for pre in prefixes:
+        for n in range(len(kws[0]) + 1):
+            for sub in itertools.combinations(kws[0], n):
+                parts = ([pre] if pre else []) + ["%s=%d" % kv for kv in sub]
+                out.append((", ".join(parts), pre, list(sub)))
+    return out
+
+
+def _params_text(name, params):
+    body = [["text", name + "("]]
+    for p in params:
+        body += [["text", p + "="], ["expr", "repr(%s)" % p], ["text", ";"]]
+    return body
+
+
+def kwonly_def_program(sigrec, args, form, fl, nested, seed):
+    return bind_program(sigrec[0], sigrec[1], args, form, fl, nested, seed)
+
+
+def kwonly_body_program(sigrec, args, form, in_def, seed):
+    """the signature is the args= of a call with content; the callee runs caller.body(ARGS)"""
+    sig, params = sigrec[0], sigrec[1]
+    pre = ir.NAME_POOL[seed % len(ir.NAME_POOL)]
+    txt = ir.TEXT_POOL[seed % len(ir.TEXT_POOL)]
+    name = pre + "1"
+    d = {"name": name, "sig": "a", "buffered": False, "filters": [], "deco": False, "defs": [],
+         "body": [["text", name + "("], ["expr", "caller.body(%s)" % args], ["text", ")"]]}
+    content = {"args": sig, "named": [], "body": _params_text(txt, params) + [["text", ")"]]}
+    cargs = "1" if form == "tcall" else [["a", [["lit", "1"]]]]
+    call = ["call", form, name, cargs, content]
+    if in_def:
+        w = {"name": "w0", "sig": "", "buffered": False, "filters": [], "deco": False, "defs": [], "body": [["text", "w0("], call, ["text", ")"]]}
+        defs, body = [d, w], [["text", "["], ["call", "bare", "w0", "", None], ["text", "]"]]
+    else:
+        defs, body = [d], [["text", "["], call, ["text", "]"]]
+    return {"defs": defs, "body": body, "cfg": 0, "ctx": {"v": c05_env.V_POOL[seed % len(c05_env.V_POOL)]}}
+
+
+def kwonly_page_program(sigrec, render_args, block_call, seed):
+    """<%page args=SIG/>; render(ARGS); optionally a named block with the same args=, rendered in place and called
+    explicitly as self.blk(block_call)"""
+    sig, params = sigrec[0], sigrec[1]
+    body = _params_text("body", params) + [["text", ")"]]
+    if block_call is not None:
+        body.append(["nblock", "blk", sig, _params_text("blk", params) + [["text", ")"]]])
+        body += [["text", "|"], ["call", "self", "blk", block_call, None], ["text", "|"]]
+    return {"defs": [], "body": body, "cfg": 0, "page": sig, "render_args": render_args,
+            "ctx": {"v": c05_env.V_POOL[seed % len(c05_env.V_POOL)]}}
+
+
+def _attrs_of(kws):
+    out = []
+    for i, (k, val) in enumerate(kws):
+        out.append([k, [["expr", str(val)]] if i % 2 == 0 else [["lit", str(val)]]])
+    return out
+
+
+def iter_kwonly(tier, seed):
+    b = BOUNDS[tier]["kwonly"]
+    flags = [tuple(f) for f in b["flags"]]
+    for rec in KW_SIGS[: b["sigs"]]:
+        sig = rec[0]
+        lists = kw_arglists(rec)
+        full = [a for a in lists if a[1] == rec[2][1] and len(a[2]) == len(rec[3][0])][0][0]  # one positional, every keyword
+        for args, pre, kws in lists:
+            for form in ir.EXPR_FORMS + ir.TAG_FORMS:
+                if form in ir.NS_FORMS:
+                    if pre and "=" not in pre:
+                        continue  # a tag passes keywords only
+                    a = ([["x", [["expr", "9"]]]] if pre else []) + _attrs_of(kws)
+                else:
+                    a = args
+                for nested in ((False, True) if form in ir.BARE_FORMS else (False,)):
+                    for fl in flags:
+                        yield {"family": "kwonly", "sig": sig, "nontrivial": True, "where": "def",
+                               "prog": kwonly_def_program(rec, a, form, fl, nested, seed)}
+            for form in ("tcall", "tself"):
+                for in_def in (False, True):
+                    yield {"family": "kwonly", "sig": sig, "nontrivial": True, "where": "body-args",
+                           "prog": kwonly_body_program(rec, args, form, in_def, seed)}
+            if "**" not in sig:  # <%page args> always gets **pageargs appended
+                yield {"family": "kwonly", "sig": sig, "nontrivial": True, "where": "page",
+                       "prog": kwonly_page_program(rec, args, None, seed)}
+                yield {"family": "kwonly", "sig": sig, "nontrivial": True, "where": "block",
+                       "prog": kwonly_page_program(rec, full, args, seed)}
+                yield {"family": "kwonly", "sig": sig, "nontrivial": True, "where": "block",
+                       "prog": kwonly_page_program(rec, args, full, seed)}
+
+
+# ---------------------------------------------------------------------------
 # family "tree"
 
 
@@ -274,7 +383,7 @@ def iter_tree(tier, seed):
                 yield {"family": "tree", "skel": skel, "cfg": 0, "w": w}
 
 
-FAMILIES = {"bind": iter_bind, "flags": iter_flags, "tree": iter_tree}
+FAMILIES = {"bind": iter_bind, "flags": iter_flags, "tree": iter_tree, "kwonly": iter_kwonly}
 
 
 def materialise(item, seed):
@@ -302,15 +411,22 @@ def run_mako(src, prog):
         t = Template(src, **ir.template_kwargs(prog))
     except Exception as e:  # noqa
         return ("compile-exc", type(e).__name__, str(e)[:300]), problems
+    pos, data = (), dict(prog["ctx"])
+    if prog.get("render_args"):
+        pos, kw = eval("__cap(%s)" % prog["render_args"], {"__cap": lambda *a, **k: (a, k)})
+        data.update(kw)
     try:
-        out = t.render_unicode(**prog["ctx"])
+        out = t.render_unicode(*pos, **data)
     except Exception as e:  # noqa
         return ("exc", type(e).__name__, str(e)[:300]), problems
     # second render of the same Template through render_context with a Context we can look at afterwards
     buf = FastEncodingBuffer()
-    ctx = Context(buf, **prog["ctx"])
+    ctx = Context(buf, **data)
     try:
-        t.render_context(ctx)
+        if prog.get("page") is not None:
+            t.render_context(ctx, *pos, **data)  # what render() does for a body with **pageargs
+        else:
+            t.render_context(ctx)
         out2 = buf.getvalue()
     except Exception as e:  # noqa
         out2 = "%s: %s" % (type(e).__name__, e)
@@ -437,7 +553,7 @@ def check_program(st, family, prog, nontrivial, extra=None):
             viol = ("%s:accepted exp=%s" % (family, exp[1]), "arity: the call binds although Python's rules reject it", list(exp), got[1])
         elif got[1] != exp[1]:
             viol = ("%s:exception %s exp=%s" % (family, got[1], exp[1]), "arity: wrong exception class", list(exp), list(got))
-    if viol is not None and family == "bind" and extra and _bare_star(extra.get("sig", "")):
+    if viol is not None and family.split(":")[0] in ("bind", "kwonly") and extra and _bare_star(extra.get("sig", "")):
         # footprint of the dropped bare '*': mako behaves exactly like the signature without it
         try:
             exp2 = ref.expected(_without_star(prog, extra["sig"]))
@@ -478,7 +594,7 @@ def check_program(st, family, prog, nontrivial, extra=None):
 def plan(tier, seed):
     n = core.NPROC
     jobs = []
-    for fam in ("tree", "bind", "flags"):
+    for fam in ("tree", "bind", "flags", "kwonly"):
         ns = n * 2 if fam == "tree" else n
         for i in range(ns):
             jobs.append({"family": fam, "tier": tier, "seed": seed, "shard": i, "nshards": ns})
@@ -496,7 +612,8 @@ def run_job(job):
             continue
         prog, nontrivial = materialise(item, seed)
         extra = {k: item[k] for k in ("sig", "calldef") if k in item} or None
-        src, exp, got = check_program(st, fam, prog, nontrivial, extra)
+        label = fam + ":" + item["where"] if "where" in item else fam
+        src, exp, got = check_program(st, label, prog, nontrivial, extra)
         n += 1
         if n % 1499 == 1:
             st.sample({"family": fam, "src": src, "expected": list(exp)})
@@ -509,7 +626,7 @@ def run_job(job):
 def post(tier, seed, st):
     """smallest witness of each signature first (workers finish in any order)"""
     st.violations.sort(key=lambda v: (v["sig"], len(v["case"].get("src", "")), v["case"].get("src", "")))
-    for k in ("cpu_s", "cpu_s_tree", "cpu_s_bind", "cpu_s_flags"):
+    for k in ("cpu_s", "cpu_s_tree", "cpu_s_bind", "cpu_s_flags", "cpu_s_kwonly"):
         if k in st.extra:
             st.extra[k] = round(st.extra[k], 1)
 
